@@ -111,17 +111,17 @@ func runC08Case(c cfg, seed uint64, nclients, perClient int, keys map[string]str
 		case 8:
 			n = 65507
 		default:
-			n = dgHdr + int(h>>8)%2000
+			n = dgHdr + int((h>>8)%2000)
 		}
 		if n > limit {
-			n = dgHdr + int(h>>8)%(limit-dgHdr)
+			n = dgHdr + int((h>>8)%uint64(limit-dgHdr))
 		}
 		return n
 	}
 	ansKind := func(client int, seq uint32) (kind byte, target int) {
 		h := vlib.Mix(seed ^ 0x77 ^ uint64(client)<<24 ^ uint64(seq))
 		if h%3 == 0 && nclients > 1 {
-			return 'S', int(h>>8) % nclients
+			return 'S', int((h >> 8) % uint64(nclients))
 		}
 		return 'W', client
 	}
